@@ -42,6 +42,9 @@ type Analysis struct {
 	Exported                   []*ssa.Function
 
 	Gate1, Gate2, Gate3 *GateInfo
+	TokCall             *ssa.Call                 // the tokeniser call whose number of results Gate3 is about
+	Gate1Param          *ssa.Parameter            // the []byte parameter whose length Gate1 is about (of Gate1.Res.Fn)
+	Gate2Param          *ssa.Parameter            // the integer parameter Gate2 is about (of Gate2.Res.Fn)
 	ListLang            map[*ssa.Global]*SpecLang // T5: which language a list variable holds
 	ListOfLang          map[string]*ssa.Global
 	EncList             map[string]*ssa.Global        // T2: list the encoder indexes per language
